@@ -288,7 +288,8 @@ pub fn write_step(rng: &mut Rng, ki: Option<usize>, vi: usize, len: u64, cfg: &W
                     o["raw"] = json!(hex::encode(rng.bytes_below(40)));
                 }
                 if rng.chance(1, 2) {
-                    o["time"] = json!((1_600_000_000_000u64 + rng.below(1 << 36)).to_string());
+                    // anywhere from long before to long after the simulated clock (1.5e12 .. 1.8e12)
+                    o["time"] = json!((1_000_000_000_000u64 + rng.below(1 << 40)).to_string());
                 }
                 if rng.chance(1, 4) {
                     // a correctly declared integrity, single or multi-hash (the extra hash is of a weaker algorithm)
@@ -621,7 +622,7 @@ pub fn gen_c09(rng: &mut Rng) -> Value {
         w_list: 1,
         audit_every: 1,
         audit_what: &["metadata", "read", "read_hash", "exists", "list"],
-        wcfg: WriteCfg { by_hash_pct: 10, rich_opts: false, declare_size_pct: 0, algos: rng.chance(1, 3), ends: false },
+        wcfg: WriteCfg { by_hash_pct: 10, rich_opts: true, declare_size_pct: 0, algos: rng.chance(1, 3), ends: false },
     };
     gen_history(rng, &m)
 }
